@@ -1177,8 +1177,8 @@ func (g *NestedRefGenerator) generateStructSchema(t reflect.Type) *openapi3.Sche
 		omitempty := false
 		if jsonTag != "" {
 			parts := strings.Split(jsonTag, ",")
-			if parts[0] != "" {
-				fieldName = parts[0]
+			if name := jsonTagName(jsonTag); name != "" {
+				fieldName = name
 			}
 			for _, opt := range parts[1:] {
 				if opt == "omitempty" {
